@@ -12,9 +12,6 @@ fn add_ref_val<R: Round, const B: Word>(
         add_fits(B as int, umax(lhs.context.precision, rhs.context.precision), lhs.repr.significand.v(), rhs.repr.significand.v()),
         add_ranges(B as int, umax(lhs.context.precision, rhs.context.precision), lhs.repr.significand.v(), lhs.repr.exponent as int,
             rhs.repr.significand.v(), rhs.repr.exponent as int),
-        // KNOWN DEFECT region excluded (see add_defect_region)
-        !add_defect(R::md(), B as int, umax(lhs.context.precision, rhs.context.precision), lhs.repr.significand.v(),
-            lhs.repr.exponent as int, rhs_sign, rhs.repr.significand.v(), rhs.repr.exponent as int),
     ensures
         // C03 / C15: the same statement for the four operand forms (and the same as for Context::add / sub)
         add_post_of(R::md(), B as int, umax(lhs.context.precision, rhs.context.precision), lhs.repr.significand.v(),
